@@ -337,8 +337,10 @@ def sprintf_formats(chk, sb_tu):
         if not name.startswith('stringBuilderAppend'):
             continue
         for n in walk(astdb.fn_body(f)):
-            if n.get('kind') == 'CallExpr' and astdb.callee_name(n) == 'sprintf':
+            if n.get('kind') == 'CallExpr' and astdb.callee_name(n) in ('sprintf', 'snprintf'):
                 a = astdb.call_args(n)
+                if astdb.callee_name(n) == 'snprintf':
+                    a = a[:1] + a[2:]          # (buffer, format, arguments...) like sprintf; the size is honoured by the evaluation
                 fmt = astdb.string_value(a[1])
                 argt = qtype(astdb.strip(a[2])) if len(a) > 2 else None
                 ptype = None
@@ -388,8 +390,8 @@ def eval_int_helper(sb_tu, name, bits, convs):
                 raise pe.PEError('append of a symbolic character')
             got.append(chr(args[1] & 0xFF))
             return 1
-        it = pe.Interp([sb_tu], {'sprintf': emit._sprintf, 'stringBuilderAppendSized': sized, 'stringBuilderAppend': plain,
-                                 'stringBuilderAppendChar': one, 'strlen': emit._strlen})
+        it = pe.Interp([sb_tu], {'sprintf': emit._sprintf, 'snprintf': emit._snprintf, 'stringBuilderAppendSized': sized,
+                                 'stringBuilderAppend': plain, 'stringBuilderAppendChar': one, 'strlen': emit._strlen})
         it.cur_tu = sb_tu
         arg = v if hexa or v < top else v - (1 << bits)
         try:
@@ -422,7 +424,7 @@ def eval_float_helper(sb_tu, name, W):
     else:
         vals = [1.0, 0.1, 1.0 / 3, 9007199254740993.0, 1.7976931348623157e+308, 2.2250738585072014e-308, 5e-324, 0.30000000000000004,
                 4503599627370497.0, 1.0000000000000002, 1e23, 123456.789, 2.5, 9.999999999999999e22]
-    vals = sorted({rnd(v) for v in vals} | {-rnd(v) for v in vals[:5]})
+    vals = sorted({rnd(v) for v in vals} | {-rnd(v) for v in vals})
     for v in vals:
         if v == 0:
             continue
@@ -441,7 +443,7 @@ def eval_float_helper(sb_tu, name, W):
                 raise pe.PEError('append of a symbolic string')
             got.append(s_)
             return 1
-        it = pe.Interp([sb_tu], {'sprintf': emit._sprintf, 'stringBuilderAppendSized': sized, 'stringBuilderAppend': plain, 'strlen': emit._strlen})
+        it = pe.Interp([sb_tu], {'sprintf': emit._sprintf, 'snprintf': emit._snprintf, 'stringBuilderAppendSized': sized, 'stringBuilderAppend': plain, 'strlen': emit._strlen})
         it.cur_tu = sb_tu
         try:
             ps = [p for p in it.explore(lambda: (name, [unk('builder'), v], {})) if not p.aborted]
